@@ -101,6 +101,15 @@ def showCfg (c : Cfg) : String :=
 
 def runC14 (line : String) : String :=
   match Sexp.parse line with
+  -- THREADS × N un-kinded events into an emitter without logs: each is routed to `discard` (`routeEvt`), and the
+  -- counter moves by one per discard, so by THREADS × N in total whatever the interleaving
+  | some (.list [.atom "c14mt", sig, threads, n]) =>
+    match cfg? sig, threads.nat?, n.nat? with
+    | some c, some threads, some n =>
+      if c.logs || threads == 0 || threads > 16 || n > 200000 then "bad-op"
+      else if routeEvt c ⟨.none, []⟩ != .discard then "bad-op"
+      else s!"discard={threads * n}\tmt={min threads 8}"
+    | _, _, _ => "bad-op"
   | some (.list [.atom "c14", sig, ext, ps]) =>
     match cfg? sig, extent? ext, props? ps with
     | some c, some ext, some props =>
